@@ -53,6 +53,10 @@ type Proc struct {
 
 	ignoreSoft bool
 	signalName string
+
+	stdinEOF    bool  // the write end of stdin is closed (always true when Cmd.Stdin was a reader)
+	stdinReader *task // child blocked reading stdin
+	stdinWaiter *task // parent blocked writing a full pipe
 }
 
 func (p *Proc) Path() string   { return p.rec.Path }
@@ -62,13 +66,29 @@ func (p *Proc) Env() []string  { return p.cmd.Env }
 // ReadStdin consumes up to n bytes of standard input (n<0: everything left).
 func (p *Proc) ReadStdin(n int) []byte {
 	p.w.yield("proc.read", p.t.id)
-	rest := p.stdin[p.rd:]
-	if n >= 0 && n < len(rest) {
-		rest = rest[:n]
+	var out []byte
+	for {
+		rest := p.stdin[p.rd:]
+		if n >= 0 && len(out)+len(rest) > n {
+			rest = rest[:n-len(out)]
+		}
+		out = append(out, rest...)
+		p.rd += len(rest)
+		p.rec.StdinRead = p.rd
+		if p.stdinWaiter != nil { // room again for a blocked writer
+			p.w.makeRunnable(p.stdinWaiter)
+			p.stdinWaiter = nil
+		}
+		if p.stdinEOF && p.rd >= len(p.stdin) {
+			return out
+		}
+		if n >= 0 && len(out) >= n {
+			return out
+		}
+		p.stdinReader = p.t
+		p.w.block("child reads stdin")
+		p.stdinReader = nil
 	}
-	p.rd += len(rest)
-	p.rec.StdinRead = p.rd
-	return rest
 }
 
 // Write writes to stdout (fd 1) or stderr (fd 2) of the child.
@@ -123,6 +143,9 @@ func (p *Proc) kill() {
 
 func (p *Proc) finished() {
 	p.done = true
+	if len(p.stdin) > p.rec.StdinLen {
+		p.rec.StdinLen = len(p.stdin)
+	}
 	p.rec.End = p.w.now
 	if p.rec.Killed {
 		p.rec.Exit = -1
@@ -131,6 +154,10 @@ func (p *Proc) finished() {
 	}
 	if p.waiter != nil {
 		p.w.makeRunnable(p.waiter)
+	}
+	if p.stdinWaiter != nil {
+		p.w.makeRunnable(p.stdinWaiter)
+		p.stdinWaiter = nil
 	}
 	// the write ends of the child's pipes are closed when it exits
 	for _, pp := range p.cmd.pipes {
@@ -237,6 +264,10 @@ type Cmd struct {
 	ctx   context.Context
 	proc  *Proc
 	pipes []*pipe
+
+	stdinPipe   *stdinPipe
+	preStdin    []byte
+	preStdinEOF bool
 }
 
 func Command(name string, arg ...string) *Cmd {
@@ -349,9 +380,17 @@ func (c *Cmd) Start() error {
 	p := &Proc{w: w, cmd: c}
 	p.rec.Path, p.rec.Args, p.rec.Start = ap, c.Args, w.now
 	if c.Stdin != nil {
+		// os/exec copies the reader into the pipe in a goroutine of its own and ignores EPIPE:
+		// modelled as "all of it is available, then EOF"
 		b, _ := io.ReadAll(c.Stdin)
 		p.stdin = b
 		p.rec.StdinLen = len(b)
+		p.stdinEOF = true
+	} else if c.stdinPipe != nil {
+		p.stdin = c.preStdin
+		p.stdinEOF = c.preStdinEOF
+	} else {
+		p.stdinEOF = true
 	}
 	script := w.Spec.Programs[ap]
 	t := w.newTask(w.cur)
@@ -458,6 +497,85 @@ type pipe struct {
 
 type pipeReader struct{ p *pipe }
 type pipeWriter struct{ p *pipe }
+
+// stdinPipe is the write end handed out by StdinPipe: a 64 KiB kernel pipe to the child.
+type stdinPipe struct {
+	c      *Cmd
+	closed bool
+}
+
+const pipeCapacity = 65536
+
+func (sp *stdinPipe) Write(b []byte) (int, error) {
+	w := W
+	n := 0
+	for len(b) > 0 {
+		if w != nil {
+			w.yield("stdin.write", "")
+		}
+		p := sp.c.proc
+		if sp.closed {
+			return n, os.ErrClosed
+		}
+		if p != nil && p.done {
+			Hit("proc.stdin-epipe")
+			return n, &fs.PathError{Op: "write", Path: "|1", Err: syscall.EPIPE}
+		}
+		if p == nil {
+			// not started yet: the pipe exists, nobody reads
+			sp.c.preStdin = append(sp.c.preStdin, b...)
+			return n + len(b), nil
+		}
+		room := pipeCapacity - (len(p.stdin) - p.rd)
+		if room <= 0 {
+			if w == nil {
+				return n, errors.New("simrt: blocking pipe write outside a world")
+			}
+			p.stdinWaiter = w.cur
+			w.block("write to child stdin (pipe full)")
+			continue
+		}
+		k := len(b)
+		if k > room {
+			k = room
+		}
+		p.stdin = append(p.stdin, b[:k]...)
+		b = b[k:]
+		n += k
+		if p.stdinReader != nil {
+			w.makeRunnable(p.stdinReader)
+		}
+	}
+	return n, nil
+}
+
+func (sp *stdinPipe) Close() error {
+	if sp.closed {
+		return os.ErrClosed
+	}
+	sp.closed = true
+	if p := sp.c.proc; p != nil {
+		p.stdinEOF = true
+		if p.stdinReader != nil && W != nil {
+			W.makeRunnable(p.stdinReader)
+		}
+	} else {
+		sp.c.preStdinEOF = true
+	}
+	return nil
+}
+
+// StdinPipe mirrors (*exec.Cmd).StdinPipe.
+func (c *Cmd) StdinPipe() (io.WriteCloser, error) {
+	if c.Stdin != nil {
+		return nil, errors.New("exec: Stdin already set")
+	}
+	if c.proc != nil {
+		return nil, errors.New("exec: StdinPipe after process started")
+	}
+	c.stdinPipe = &stdinPipe{c: c}
+	return c.stdinPipe, nil
+}
 
 func (pw pipeWriter) Write(b []byte) (int, error) {
 	pw.p.buf = append(pw.p.buf, b...)
